@@ -350,7 +350,6 @@ theorem good_parseCallImmediate (m : Nat) : Good m parseCallImmediate := by
   have h := (good_opt (good_alt (good_preceded (good_tok m (.operator .plus)) (good_parseImmediateValue m))
     (good_pmap cNegate (good_preceded (good_tok m (.operator .minus)) (good_parseImmediateValue m))))).safe
       input hi
-  simp only
   cases hh : opt (alt (preceded (tok (.operator .plus)) parseImmediateValue)
       (pmap cNegate (preceded (tok (.operator .minus)) parseImmediateValue))) input with
   | ok v rest =>
@@ -456,35 +455,62 @@ theorem safe_delayBacktrack {m : Nat} {p : Parser α} (hp : Good m p) (input : L
     | fail => simpa using ih (by omega)
     | crash w => rw [hh] at h; exact absurd h (safe_crash w _)
 
-theorem many0_parseQubit_length (input : List Token) :
-    ∀ (k : Nat) (qs : List Qubit) (rest : List Token), many0Fuel parseQubit k input = .ok qs rest →
-      qs.length + rest.length = input.length := by
+theorem parseQubit_consumes (i : List Token) (q : Qubit) (r : List Token) (h : parseQubit i = .ok q r) :
+    i.length = r.length + 1 := by
+  cases i with
+  | nil => simp [parseQubit] at h
+  | cons t rest =>
+    cases t <;> simp [parseQubit] at h
+    all_goals (obtain ⟨_, h2⟩ := h; subst h2; simp)
+
+theorem many0_parseQubit_length :
+    ∀ (k : Nat) (input : List Token) (qs : List Qubit) (rest : List Token),
+      many0Fuel parseQubit k input = .ok qs rest → qs.length + rest.length = input.length := by
   intro k
-  induction k generalizing input with
-  | zero => intro qs rest h; simp [many0Fuel] at h
+  induction k with
+  | zero => intro input qs rest h; simp [many0Fuel] at h
   | succ k ih =>
-    intro qs rest h
+    intro input qs rest h
     unfold many0Fuel at h
-    cases input with
-    | nil => simp [parseQubit] at h; obtain ⟨h1, h2⟩ := h; subst h1 h2; rfl
-    | cons t r =>
-      cases t <;> simp only [parseQubit] at h
-      all_goals first
-        | (simp at h; obtain ⟨h1, h2⟩ := h; subst h1 h2; rfl)
-        | (simp only [List.length_cons] at h
-           split at h
-           · rename_i hne; simp at hne
-           · cases hm : many0Fuel parseQubit k r with
-             | ok qs' rest' =>
-               rw [hm] at h
-               simp [Outcome.map] at h
-               obtain ⟨h1, h2⟩ := h
-               subst h1 h2
-               have := ih r qs' rest' hm
-               simp; omega
-             | err => rw [hm] at h; simp [Outcome.map] at h
-             | fail => rw [hm] at h; simp [Outcome.map] at h
-             | crash w => rw [hm] at h; simp [Outcome.map] at h)
+    cases hp : parseQubit input with
+    | ok v r =>
+      have hc := parseQubit_consumes input v r hp
+      rw [hp] at h
+      simp only at h
+      split at h
+      · simp at h
+      · cases hm : many0Fuel parseQubit k r with
+        | ok qs' rest' =>
+          rw [hm] at h
+          simp only [Outcome.map, Outcome.ok.injEq] at h
+          obtain ⟨h1, h2⟩ := h
+          subst h1 h2
+          have := ih r qs' rest' hm
+          simp only [List.length_cons]
+          omega
+        | err => rw [hm] at h; simp [Outcome.map] at h
+        | fail => rw [hm] at h; simp [Outcome.map] at h
+        | crash w => rw [hm] at h; simp [Outcome.map] at h
+    | err =>
+      rw [hp] at h
+      simp only [Outcome.ok.injEq] at h
+      obtain ⟨h1, h2⟩ := h
+      subst h1 h2
+      simp
+    | fail => rw [hp] at h; simp at h
+    | crash w => rw [hp] at h; simp at h
+
+theorem safe_delayAttempts {m : Nat} {p : Parser α} (hp : Good m p) (input : List Token)
+    (hi : input.length < m) (k : Nat) (hk : k ≤ input.length) : Safe (delayAttempts p input k) input := by
+  unfold delayAttempts
+  rw [sliceFrom_ok input k hk]
+  simp only
+  have h := hp.safe (input.drop k) (by simp; omega)
+  cases hh : p (input.drop k) with
+  | ok v rest' => rw [hh] at h; simp at h ⊢; omega
+  | err => exact safe_delayBacktrack hp input hi _ (by simp) _ hk
+  | fail => exact safe_delayBacktrack hp input hi _ (by simp) _ hk
+  | crash w => rw [hh] at h; exact absurd h (safe_crash w _)
 
 theorem good_parseDelay {m : Nat} {pe : Parser PExpr} (hpe : Good m pe) : Good m (parseDelay pe) := by
   refine ⟨fun input hi => ?_⟩
@@ -493,35 +519,18 @@ theorem good_parseDelay {m : Nat} {pe : Parser PExpr} (hpe : Good m pe) : Good m
   cases hqi : many0 parseQubit input with
   | ok qubits rest =>
     have hlen : qubits.length ≤ input.length := by
-      have := many0_parseQubit_length input _ qubits rest hqi
+      have := many0_parseQubit_length _ input qubits rest hqi
       omega
     simp only
-    rw [sliceFrom_ok input qubits.length hlen]
-    simp only
-    have hp := good_parseDelayFrameNamesAndDuration hpe
-    have h := hp.safe (input.drop qubits.length) (by simp; omega)
-    have hres : Safe (match parseDelayFrameNamesAndDuration pe (input.drop qubits.length) with
-        | .ok v rest => Outcome.ok (v, qubits.length) rest
-        | .crash w => .crash w
-        | .err => delayBacktrack (parseDelayFrameNamesAndDuration pe) input .err qubits.length
-        | .fail => delayBacktrack (parseDelayFrameNamesAndDuration pe) input .fail qubits.length) input := by
-      cases hh : parseDelayFrameNamesAndDuration pe (input.drop qubits.length) with
-      | ok v rest' => rw [hh] at h; simp at h ⊢; omega
-      | err => exact safe_delayBacktrack hp input hi _ (by simp) _ hlen
-      | fail => exact safe_delayBacktrack hp input hi _ (by simp) _ hlen
-      | crash w => rw [hh] at h; exact absurd h (safe_crash w _)
-    revert hres
-    generalize (match parseDelayFrameNamesAndDuration pe (input.drop qubits.length) with
-        | .ok v rest => Outcome.ok (v, qubits.length) rest
-        | .crash w => .crash w
-        | .err => delayBacktrack (parseDelayFrameNamesAndDuration pe) input .err qubits.length
-        | .fail => delayBacktrack (parseDelayFrameNamesAndDuration pe) input .fail qubits.length) = res
-    intro hres
-    cases res with
-    | ok v rest' => obtain ⟨⟨a, b⟩, c⟩ := v; simpa using hres
+    have hres := safe_delayAttempts (good_parseDelayFrameNamesAndDuration hpe) input hi qubits.length hlen
+    cases hd : delayAttempts (parseDelayFrameNamesAndDuration pe) input qubits.length with
+    | ok v rest' =>
+      rw [hd] at hres
+      obtain ⟨⟨a, b⟩, c⟩ := v
+      simpa using hres
     | err => simp
     | fail => simp
-    | crash w => exact absurd hres (safe_crash w input)
+    | crash w => rw [hd] at hres; exact absurd hres (safe_crash w input)
   | err => simp
   | fail => simp
   | crash w => rw [hqi] at hq; exact absurd hq (safe_crash w input)
